@@ -129,3 +129,16 @@ func (v *VerifRecv) Drain() []byte {
 
 // Ack returns the receiver's cumulative acknowledgement number (32 bit on the wire).
 func (v *VerifRecv) Ack() uint32 { return v.r.getAck() }
+
+// VerifProgress is a number that grows whenever a reliable tube end makes progress: a frame of its own was
+// acknowledged, or the next in-order frame of the peer arrived (sum of the two cumulative counters).  Read
+// without locks: the simulation runs on one processor and the caller sits between scheduling points (the
+// tiers that run under the race detector do not use it).  Oracles use it to tell "slow under loss" from
+// "stuck".
+func VerifProgress(t Tube) uint64 {
+	v, ok := t.(*Reliable)
+	if !ok {
+		return 0
+	}
+	return v.sender.ackNo + v.recvWindow.ackNo
+}
